@@ -287,3 +287,18 @@ Print Assumptions C16_tower_ok_syntactic.
 Print Assumptions C16_evaluator_correct_syntactic.
 Print Assumptions C16_nested_evaluator.
 Print Assumptions C16_nested_example.
+
+(* evalInterval IS THE SOURCE'S.  translate/gen_toracle.py re-reads TransformedOracle::evalInterval (transformed_oracle.cpp) on
+   every run: the underlying oracle evaluated on the box of the three coordinate ranges (recognised by shape) and the
+   may-be-NaN flag raised under the condition the source states (translated: `!xRange.isSafe() || !yRange.isSafe() ||
+   !zRange.isSafe()`); it is the [tor_interval] of C16_interval_sound (the code before the repair 31b4946 has no such
+   statement and generates a transformer that keeps the underlying flag only) *)
+From LF Require Gen.TransformedInterval_gen.
+Theorem C16_transformed_interval_from_source :
+  forall (T : Type) (iu : box T -> ires T) (RX RY RZ : ires T),
+    TransformedInterval_gen.tor_interval_gen T iu RX RY RZ = tor_interval T iu RX RY RZ.
+Proof.
+  intros T iu RX RY RZ. unfold TransformedInterval_gen.tor_interval_gen, tor_interval. cbn.
+  destruct (ir_nan T (iu (ir_itv T RX, ir_itv T RY, ir_itv T RZ))), (ir_nan T RX), (ir_nan T RY), (ir_nan T RZ); reflexivity.
+Qed.
+Print Assumptions C16_transformed_interval_from_source.
